@@ -107,3 +107,101 @@ package config
 
 //@ func parseMethodMap
 //@   props C13
+
+// ---- C15 / C12: converter-level settings ----
+// output:package [PATH][:NAME] sets both parts (a line without :NAME clears an earlier name so that it is
+// inferred again); output:file is the parsed path; every other key leaves the output location alone;
+// a key that is neither a converter key nor an inheritable key is an error; inheritable keys go to parseCommon
+// with this converter's own Common.
+//@ pred ConverterKey(cmd string) bool = cmd == "converter" || cmd == "variables" || cmd == "name" || cmd == "output:raw" || cmd == "output:file"
+//@     || cmd == "output:format" || cmd == "output:package" || cmd == "struct:comment" || cmd == "enum:exclude" || cmd == "extend"
+//@ func parseConverterLine
+//@   props C15 C12
+//@   at@C15 return assert cmd == parse.CmdName(value) && rest == parse.CmdRest(value)
+//@   at@C15 return assert cmd == "output:package" && err == nil && !strings.Contains(parse.StringValue(rest), ":") ==> c.OutputPackagePath == parse.StringValue(rest) && c.OutputPackageName == ""
+//@   at@C15 return assert cmd == "output:package" && err == nil && strings.Contains(parse.StringValue(rest), ":") ==> c.OutputPackagePath + ":" + c.OutputPackageName == parse.StringValue(rest) && !strings.Contains(c.OutputPackagePath, ":")
+//@   at@C15 return assert cmd == "output:package" ==> (err == nil) == parse.StringOK(rest)
+//@   at@C15 return assert cmd != "output:package" ==> c.OutputPackagePath == old(c.OutputPackagePath) && c.OutputPackageName == old(c.OutputPackageName)
+//@   at@C15 return assert cmd != "output:file" ==> c.OutputFile == old(c.OutputFile)
+//@   at@C15 return assert cmd == "output:file" && err == nil && !strings.HasPrefix(parse.StringValue(rest), "@cwd/") ==> c.OutputFile == parse.StringValue(rest)
+//@   at@C12 return assert !ConverterKey(cmd) && !KnownCommonKey(cmd) ==> err != nil
+//@   at@C12 return assert cmd == "name" && old(c.OutputFormat) != FormatStruct ==> err != nil
+//@   at@C12 return assert cmd == "struct:comment" && old(c.OutputFormat) != FormatStruct ==> err != nil
+//@   at@C12 call parseCommon#1 assert arg1 == cmd && arg2 == rest && !ConverterKey(cmd)
+//@   loop 1 invariant c.OutputFile == old(c.OutputFile) && c.OutputPackagePath == old(c.OutputPackagePath) && c.OutputPackageName == old(c.OutputPackageName)
+
+//@ func Converter.requireStruct
+//@   props C12
+//@   pure
+//@   ensures (result == nil) == (c.OutputFormat == FormatStruct)
+
+//@ func Converter.typeForMethod
+//@   pure
+
+// ---- C12: the order in which the levels are applied: defaults, then the global (-g) lines, then the
+// ---- converter's own lines (parseConverter); a method starts from a copy of its converter's Common and
+// ---- applies its own lines in order (parseMethod). A method line never changes the converter. ----
+//@ func initConverter
+//@   props C12 C15
+//@   propagates
+//@   ensures@C12 err == nil ==> same(result0.Common, DefaultCommon)
+//@   ensures@C15 err == nil && rawConverter.InterfaceName != "" ==> result0.OutputFile == "./generated/generated.go" && result0.OutputPackagePath == "" && result0.OutputPackageName == ""
+//@   ensures@C15 err == nil && rawConverter.InterfaceName == "" ==> result0.OutputFile == defaultOutputFile(rawConverter.FileName) && result0.OutputPackagePath == rawConverter.PackagePath && result0.OutputPackageName == rawConverter.PackageName
+
+//@ func defaultOutputFile
+//@   props C15
+//@   pure
+//@   ensures result == strings.TrimSuffix(filepath.Base(name), filepath.Ext(filepath.Base(name))) + ".gen" + filepath.Ext(filepath.Base(name))
+
+//@ func parseConverter
+//@   props C12 C15
+//@   propagates
+//@   at@C12 call parseConverterLines#1 assert arg1 == c && arg2 == "global" && same(arg3, global)
+//@   at@C12 call parseConverterLines#2 assert arg1 == c && same(arg3, rawConverter.Converter)
+//@   at@C15 call resolveOutputPackage#1 assert arg1 == c
+//@   at@C12 call parseMethods#1 assert arg2 == c
+
+//@ func parseConverterLines
+//@   props C12
+//@   propagates
+//@   at@C12 call parseConverterLine#1 assert arg1 == c && arg2 == raw.Lines[idx]
+
+// an explicit output:package path / name is never overridden by the inferred one
+//@ func resolveOutputPackage
+//@   props C15
+//@   ensures old(c.OutputPackagePath) != "" ==> c.OutputPackagePath == old(c.OutputPackagePath)
+//@   ensures old(c.OutputPackageName) != "" ==> c.OutputPackageName == old(c.OutputPackageName)
+//@   ensures c.OutputFile == old(c.OutputFile)
+
+//@ pred MethodKey(cmd string) bool = cmd == "map" || cmd == "ignore" || cmd == "update" || cmd == "context" || cmd == "enum:map"
+//@     || cmd == "enum:transform" || cmd == "autoMap" || cmd == "default"
+
+//@ func parseMethod
+//@   props C12 C14
+//@   at@C12 call parseMethodLine#1 assert arg1 == c && arg2 == m && arg3 == rawMethod.Lines[idx]
+//@   at@C14 call method.Parse#1 assert arg0 == obj && arg1.UpdateParam == m.updateParam && arg1.ContextMatch == m.ArgContextRegex && same(arg2, m.localOpts)
+//@           && arg1.Params == method.ParamsRequired && !arg1.AllowTypeParams && arg1.Converter == nil && arg1.OutputPackagePath == c.OutputPackagePath
+//@   loop@C12 1 invariant idx == 0 ==> same(m.Common, old(c.Common))
+//@   loop@C12 1 invariant same(c.Common, old(c.Common))
+//@   ensures@C12 len(rawMethod.Lines) == 0 ==> same(result0.Common, old(c.Common))
+//@   ensures@C12 same(c.Common, old(c.Common))
+
+//@ func parseMethodLine
+//@   props C12 C14
+//@   at@C12 return assert !MethodKey(cmd) && !KnownCommonKey(cmd) ==> err != nil
+//@   at@C12 call parseCommon#1 assert arg1 == cmd && arg2 == rest && !MethodKey(cmd)
+//@   at@C12 return assert same(c.Common, old(c.Common))
+//@   at@C12 return assert MethodKey(cmd) ==> same(m.Common, old(m.Common))
+//@   at@C14 return assert cmd == "context" && err == nil ==> has(m.localOpts.Context, parse.StringValue(rest))
+//@   at@C14 return assert cmd == "update" && err == nil ==> m.updateParam == parse.StringValue(rest)
+//@   at@C14 return assert cmd != "update" ==> m.updateParam == old(m.updateParam)
+//@   at@C14 return assert cmd != "context" ==> forall k string :: has(m.localOpts.Context, k) == old(has(m.localOpts.Context, k))
+//@   loop@C14 1 invariant forall k string :: has(m.localOpts.Context, k) == old(has(m.localOpts.Context, k))
+
+//@ func formatLineError
+//@   props C12
+//@   ensures result != nil
+
+//@ func Method.Field
+//@   props C05 C12
+//@   assigns map(m.Fields)
